@@ -137,7 +137,10 @@ func c11Sorts(e *c11Env, have map[string]bool) {
 		}
 	}
 
-	// stability: SliceStable with an Ego comparison function on keys = value/100 (tags = value%100 are unique)
+	// stability on long arrays with many ties (13 … 200 elements), every entry point documented as stable
+	c11StableSorts(e, have)
+
+	// stability on short arrays: SliceStable with an Ego comparison function on keys = value/100 (tags = value%100 are unique)
 	if have["sort.SliceStable"] {
 		for i := 0; i < verifh.N(120, 1200); i++ {
 			n := r.Intn(12)
